@@ -451,4 +451,126 @@ theorem mem_combineSpec_iff_scan (beg1 end1 : Int) (step1 : Nat) (beg2 end2 : In
     have : v - beg2 = (v - beg) + (beg - beg2) := by ring
     rw [this]; exact Int.dvd_add a3 hb3
 
+theorem not_mem_applySliceTo_empty (n k : Nat) : k ∉ applySliceTo n 0 0 1 := by
+  rw [mem_applySliceTo _ _ _ _ (by omega) (by omega) (by omega)]
+  omega
+
+/-- `combine_slices` on normalised triples with positive steps is exact, for all inputs. -/
+theorem combineNorm_correct (beg1 end1 : Int) (step1 : Nat) (beg2 end2 : Int) (step2 : Nat)
+    (h1 : 0 < step1) (h2 : 0 < step2) :
+    applySliceTo (rangeLen beg1 end1 step1)
+        (combineNorm beg1 end1 step1 beg2 end2 step2).1
+        (combineNorm beg1 end1 step1 beg2 end2 step2).2.1
+        (combineNorm beg1 end1 step1 beg2 end2 step2).2.2 =
+      combineSpec beg1 end1 step1 beg2 end2 step2 := by
+  have hS1 : (0 : Int) < step1 := by omega
+  by_cases hnt : beg2 ≥ end1 ∨ end2 ≤ beg1
+  · have hout : combineNorm beg1 end1 step1 beg2 end2 step2 = (0, 0, 1) := by
+      unfold combineNorm; rw [if_pos (by simpa using hnt)]
+    rw [hout]
+    simp only []
+    refine eq_of_sorted_of_mem_iff
+      (applySliceTo_sorted _ _ _ _ (by omega) (by omega)) (combineSpec_sorted ..) fun k => ?_
+    rw [mem_combineSpec _ _ _ _ _ _ h1 h2]
+    have := natCast_mul_nonneg k step1
+    have := not_mem_applySliceTo_empty (rangeLen beg1 end1 step1) k
+    constructor
+    · intro h; contradiction
+    · rintro ⟨a, b, c, _⟩; omega
+  · rw [combineNorm_eq _ _ _ _ _ _ hnt]
+    have hscan := mem_combineSpec_iff_scan beg1 end1 step1 beg2 end2 step2 h1 h2
+    have hmem := mem_scanList beg1 step1 (begAdj (max beg1 beg2) beg2 step2) (min end1 end2)
+      step2 h2
+    have hsorted := scanList_sorted beg1 step1 (begAdj (max beg1 beg2) beg2 step2)
+      (min end1 end2) step2 h2
+    obtain ⟨hb1, hb2, hb3⟩ := begAdj_spec (max beg1 beg2) beg2 step2 h2
+    generalize begAdj (max beg1 beg2) beg2 step2 = beg at *
+    generalize hF : scanList beg1 step1 beg (min end1 end2) step2 = F at *
+    rcases F with _ | ⟨x, _ | ⟨y, rest⟩⟩
+    · -- no common element
+      simp only []
+      refine eq_of_sorted_of_mem_iff
+        (applySliceTo_sorted _ _ _ _ (by omega) (by omega)) (combineSpec_sorted ..) fun k => ?_
+      have := not_mem_applySliceTo_empty (rangeLen beg1 end1 step1) k
+      rw [hscan k]
+      simp [this]
+    · -- exactly one common element
+      simp only []
+      have hx := (hmem x).mp (by simp)
+      have hxi : (x - beg1) / (step1 : Int) * (step1 : Int) = x - beg1 :=
+        Int.ediv_mul_cancel hx.2.2.2
+      have hi0 : 0 ≤ (x - beg1) / (step1 : Int) := Int.ediv_nonneg (by omega) hS1.le
+      generalize (x - beg1) / (step1 : Int) = i at *
+      refine eq_of_sorted_of_mem_iff
+        (applySliceTo_sorted _ _ _ _ (by omega) hi0) (combineSpec_sorted ..) fun k => ?_
+      rw [mem_applySliceTo _ _ _ _ (by omega) hi0 (by omega), hscan k, lt_rangeLen_iff _ _ _ h1,
+        List.mem_singleton]
+      constructor
+      · rintro ⟨a, b, c, _⟩
+        have hk : (k : Int) = i := by omega
+        rw [hk]; omega
+      · intro hk
+        have hki : (k : Int) = i :=
+          Int.eq_of_mul_eq_mul_right (Int.ne_of_gt hS1) (by omega)
+        exact ⟨by omega, by omega, by omega, one_dvd _⟩
+    · -- at least two common elements: the remainder argument
+      simp only []
+      have hx := (hmem x).mp (by simp)
+      have hy := (hmem y).mp (by simp)
+      rw [List.pairwise_cons, List.pairwise_cons] at hsorted
+      have hxy : x < y := hsorted.1 y (by simp)
+      have hfirst : ∀ v, (beg ≤ v ∧ v < min end1 end2 ∧ (step2 : Int) ∣ v - beg ∧
+          (step1 : Int) ∣ v - beg1) → v = x ∨ y ≤ v := by
+        intro v hv
+        have hvF := (hmem v).mpr hv
+        rcases List.mem_cons.mp hvF with h | h
+        · exact Or.inl h
+        · rcases List.mem_cons.mp h with h | h
+          · exact Or.inr (by omega)
+          · exact Or.inr (le_of_lt (hsorted.2.1 v h))
+      have hkey := common_iff_of_first_two hx hy hxy hfirst
+      have hxi : (x - beg1) / (step1 : Int) * (step1 : Int) = x - beg1 :=
+        Int.ediv_mul_cancel hx.2.2.2
+      have hyj : (y - beg1) / (step1 : Int) * (step1 : Int) = y - beg1 :=
+        Int.ediv_mul_cancel hy.2.2.2
+      have hi0 : 0 ≤ (x - beg1) / (step1 : Int) := Int.ediv_nonneg (by omega) hS1.le
+      have hend := fun k => lt_ceil_iff (min end1 end2 - beg1) step1 k hS1
+      generalize (x - beg1) / (step1 : Int) = i at *
+      generalize (y - beg1) / (step1 : Int) = j at *
+      generalize (if ((min end1 end2 - beg1) % (step1 : Int) != 0) = true
+        then (min end1 end2 - beg1) / (step1 : Int) + 1
+        else (min end1 end2 - beg1) / (step1 : Int)) = endNew at *
+      have hij : i < j := Int.lt_of_mul_lt_mul_right (by omega) hS1.le
+      have hend0 : 0 ≤ endNew := by
+        have := (hend (-1)).mpr (by omega)
+        omega
+      refine eq_of_sorted_of_mem_iff
+        (applySliceTo_sorted _ _ _ _ (by omega) hi0) (combineSpec_sorted ..) fun k => ?_
+      rw [mem_applySliceTo _ _ _ _ (by omega) hi0 hend0, hscan k, hmem, hkey, hend,
+        lt_rangeLen_iff _ _ _ h1]
+      have hdvd : (y - x) ∣ beg1 + (k : Int) * (step1 : Int) - x ↔ (j - i) ∣ (k : Int) - i := by
+        have e1 : y - x = (j - i) * (step1 : Int) := by rw [Int.sub_mul]; omega
+        have e2 : beg1 + (k : Int) * (step1 : Int) - x = ((k : Int) - i) * (step1 : Int) := by
+          rw [Int.sub_mul]; omega
+        rw [e1, e2, Int.mul_dvd_mul_iff_right (Int.ne_of_gt hS1)]
+      have hle : x ≤ beg1 + (k : Int) * (step1 : Int) ↔ i ≤ (k : Int) := by
+        rw [← Int.mul_le_mul_right hS1 (b := i) (c := (k : Int))]; omega
+      rw [hdvd, hle]
+      constructor
+      · rintro ⟨a, b, c, d⟩; exact ⟨a, by omega, d⟩
+      · rintro ⟨a, b, d⟩; exact ⟨a, by omega, by omega, d⟩
+
+/-- The statement the driver evaluates (`implok`): whenever both `slice.indices` calls succeed
+with positive steps, the model's output satisfies `specCombine`. -/
+theorem specCombine_combineNorm (len : Nat) (s1 s2 : Option Int × Option Int × Option Int)
+    (b1 e1 st1 b2 e2 st2 : Int)
+    (hs1 : sliceIndices s1.1 s1.2.1 s1.2.2 len = some (b1, e1, st1))
+    (hs2 : sliceIndices s2.1 s2.2.1 s2.2.2 len = some (b2, e2, st2))
+    (h1 : 0 < st1) (h2 : 0 < st2) :
+    specCombine len s1 s2 (combineNorm b1 e1 st1.toNat b2 e2 st2.toNat) = true := by
+  unfold specCombine
+  rw [hs1, hs2]
+  simp only [gt_iff_lt, h1, h2, and_self, if_true, beq_iff_eq]
+  exact combineNorm_correct b1 e1 st1.toNat b2 e2 st2.toNat (by omega) (by omega)
+
 end GlueVerif.Lemmas.C20Combine
